@@ -33,9 +33,9 @@ def dechunk_strict(wire: bytes) -> tuple[bytes, str | None, int]:
         eol = wire.find(b"\n", pos)
         if eol < 0:
             return bytes(out), "unterminated chunk header", pos
-        line = wire[pos:eol]
-        if line.endswith(b"\r"):
-            line = line[:-1]
+        # surrounding blanks (incl. a doubled CR) around the size are tolerated: the property's malformed
+        # categories are truncated, negative, non-hex and unterminated headers, not padding
+        line = wire[pos:eol].strip(b" \t\r\x0b\x0c\x1c\x1d\x1e\x1f\x85\xa0")
         if not line or any(c not in HEX for c in line):
             return bytes(out), f"invalid chunk size {line[:20]!r}", pos
         size = int(line, 16)
